@@ -43,6 +43,9 @@ deriving Repr, DecidableEq, Inhabited
 structure LexEnv (σ τ : Type) where
   scan : σ → Metrics → Pos → Option (τ × Pos) × σ
   passes : Nat → τ → Bool
+  /-- the position of byte offset `b` of the text measured from its start with metrics `m`
+  (`metrics.end_position(&text[..b], start)`; used only by the metrics builders) -/
+  measure : Metrics → Nat → Pos
 
 namespace Lexer
 variable {σ τ : Type} (E : LexEnv σ τ)
@@ -150,11 +153,25 @@ def setFilter (f : Option Nat) (lx : Lexer σ τ) : Option Nat × Lexer σ τ :=
 def withFilter (f : Option Nat) (lx : Lexer σ τ) : Lexer σ τ :=
   ((lx.setFilter E f).2).bufferNext E
 
-def withColumnMetrics (m : Metrics) (lx : Lexer σ τ) : Lexer σ τ := { lx with metrics := m }
+/-- `remeasure_positions` (repair of the builder-order defect): one position re-measured for the
+lexer's current metrics; a position at the start of the text is left alone. -/
+def remeasure (m : Metrics) (p : Pos) : Pos := if p.byte = 0 then p else E.measure m p.byte
+
+def remeasureAll (lx : Lexer σ τ) : Lexer σ τ :=
+  { lx with
+    parseStart := remeasure E lx.metrics lx.parseStart
+    tokenStart := remeasure E lx.metrics lx.tokenStart
+    cursor := remeasure E lx.metrics lx.cursor
+    buffer := lx.buffer.map fun b =>
+      { b with peekStart := remeasure E lx.metrics b.peekStart, peekCursor := remeasure E lx.metrics b.peekCursor } }
+
+/-- the metrics builders re-measure the positions the lexer already holds -/
+def withColumnMetrics (m : Metrics) (lx : Lexer σ τ) : Lexer σ τ :=
+  remeasureAll E { lx with metrics := m }
 def withLineEnding (le : LineEnding) (lx : Lexer σ τ) : Lexer σ τ :=
-  { lx with metrics := { lx.metrics with le := le } }
+  remeasureAll E { lx with metrics := { lx.metrics with le := le } }
 def withTabWidth (tab : Nat) (lx : Lexer σ τ) : Lexer σ τ :=
-  { lx with metrics := { lx.metrics with tab := tab } }
+  remeasureAll E { lx with metrics := { lx.metrics with tab := tab } }
 
 def setRecoverState (r : Option Nat) (lx : Lexer σ τ) : Lexer σ τ := { lx with recover := r }
 
